@@ -520,3 +520,22 @@ PLANS["C15"] = dict(
     assumptions=["tile coordinates are exact integers in float64"],
     trusted_base=["TLC 2026.09.04", "CommunityModules Json/IOUtils"],
 )
+
+# ---- C18 -------------------------------------------------------------------------------------------
+
+
+def run_c18(ctx):
+    ctx.mc("GeoSphereMC", "GeoSphereMC.cfg", workers=4, note="ringArea index schedule (lo/mi/hi with implicit closing) = cyclic triples, n = 3..14, closed and unclosed")
+    shards = ctx.gen("geo")
+    ctx.validate("GeoSphere_Trace", shards)
+
+
+PLANS["C18"] = dict(
+    run=run_c18, signature=sig_default,
+    technique="TLA+ relations over integer observations of the spherical functions, rational-sine closed forms for box areas, and a model check of the ring-area index schedule; TLC validates traces of the real geo functions",
+    level_text="TLC model-checks the index schedule of geo.ringArea (lo/mi/hi rewiring with implicit closing) against the cyclic-triple sum for rings of 3..14 stored vertices, closed and unclosed. For seeded and gridded point pairs (incl. pairs straddling the antimeridian in both orders and close pairs below 80 degrees), bearings, distances to 5000 km, lines and rings of 3..12 integer-degree vertices, TLC requires: both distances symmetric bit for bit and at most half the circumference; fast vs haversine within 1e-5 under 10 km; PointAtBearingAndDistance landing within 1 mm of the requested haversine distance; the midpoint equidistant within 1 mm; Length = sum of segment distances; ring area unchanged (1e-6) by every rotation, the reversal (negated), explicit closing and by living in a shared coordinate buffer (which must not be written); SignedArea's sign = the winding computed from the integer coordinates; polygon = |outer| - sum |holes| for holes of either winding, multi = sum; and the area of every box whose parallels are 0, +-30, +-90 degrees = 710 011 km^2 x width x (sin top - sin bottom) in integer arithmetic.",
+    level_note="Trigonometric closed forms at arbitrary latitudes cannot be written in TLA+: apart from the rational-sine boxes and the winding sign, the checks are relations between outputs of the code (a contract, not an independent oracle). Trusted: TLC, Json module, the fixed-point roundings in the harness.",
+    rule="one event = one observation tuple (distance pair, bearing landing, midpoint, length, box, ring with its variants); all events non-trivial; distinct = distinct event text",
+    assumptions=["float64 arithmetic error is far below the tolerances (1 mm, 1e-5, 1e-6 relative)"],
+    trusted_base=["TLC 2026.09.04", "CommunityModules Json/IOUtils"],
+)
